@@ -196,6 +196,51 @@ TRIGGERS = {
  'S3-C10': ('datahintsignset.py: Iterator added to the quasi-iterable signs',
             'Iterator[T] + an iterator that structurally is a Collection '
             '(__len__ + __contains__): one item consumed per check'),
+ # ---- round 4: authors told to stay away from the files of rounds 1-3
+ 'S4-C01': ('_valecorebinary.py: A & B code lost its outer parentheses (the '
+            'superclass heuristic takes "(a) and (b)" for wrapped)',
+            'a negated conjunction ~(A & B): (not a) and b; same mechanism as '
+            'S-C12, written independently for C01'),
+ 'S4-C02': ('datahintsignset.py: MutableSequence filed under the reiterable '
+            'signs (item 0 only) instead of the sequence signs',
+            'MutableSequence[T] and an object whose only violating item is at '
+            'index >= 1: accepted under every draw'),
+ 'S4-C03': ('_valeisobj.py: IsAttr temporary named after the attribute only '
+            '(same mechanism as S2-C12, written for C03)',
+            'IsAttr[n, IsAttr[n, X] & Y]: Y evaluated on obj.n.n; rejections '
+            'surface as the desynchronisation exception'),
+ 'S4-C04': ('decorstandard.py: lru_cache re-applied from cache_info() '
+            '(typed= lost)',
+            '@beartype above @functools.lru_cache(typed=True) then equal '
+            'values of another type (2 then 2.0): served from the cache '
+            'unchecked'),
+ 'S4-C05': ('utilasttest.py is_node_callable_typed: early False when args and '
+            'kwonlyargs are empty (positional-only ignored)',
+            'a function whose only annotations sit on positional-only '
+            'parameters, no return hint: the hook leaves it undecorated'),
+ 'S4-C06': ('_clawpkgmake.py make_conf_hookable: tests "is None" instead of '
+            'the is-set flag',
+            'a registration whose conf passes '
+            'warning_cls_on_decorator_exception=None explicitly: coerced to '
+            'the hook default'),
+ 'S4-C07': ('redpep484ref.py: reuses the value typing memoised on a shared '
+            'ForwardRef',
+            'Optional["X"] / List["X"] in a module imported twice (or two '
+            'scopes) with typing.get_type_hints() called on the first copy: '
+            'the second copy checks against the first copy\'s class'),
+ 'S4-C08': ('convmain.py: Coroutine[...] return reduction decided from the '
+            'unwrapped callable',
+            'async wraps closure over a plain factory annotated '
+            'Coroutine[None, None, int]: every valid await raises a return '
+            'violation'),
+ 'S4-C09': ('datacodepep484585.py: quasi-iterable guard "not a Collection" '
+            'became "has no __len__"',
+            'a sized non-collection iterable under Iterable[T]: next(iter()) '
+            'runs on it'),
+ 'S4-C10': ('datacodefuncwrap.py: "was the keyword-only argument passed" '
+            'tested with != instead of "is not"',
+            'an object with __eq__/__ne__ passed through a keyword-only '
+            'parameter: its comparison dunder runs on every call'),
  'S3-C11': ('pep593.py is_hint_pep593_beartype: the isinstance() test on the '
             'first metadatum moved out of the try/except',
             'Annotated[...] whose first metadatum raises when its __class__ is '
@@ -394,6 +439,30 @@ HISTORY = {
            'already consumes such objects on the unchanged tree (new open '
            'finding, keyed by hint family) - the seeded Iterator[T] variant '
            'is caught under its own key',
+ 'S4-C01': 'MISSED by C01 at first contact, CAUGHT by C12 (it is a validator-'
+           'algebra defect); C01\'s grammar now has negated compound '
+           'validators too - caught by both',
+ 'S4-C03': 'MISSED by C03 at first contact, CAUGHT by C12; the hint grammar '
+           'now has a same-attribute nested IsAttr validator with a sibling '
+           'on the outer value (RealBox chains) - caught by both',
+ 'S4-C04': 'MISSED at first contact (no standard-library decorator below '
+           '@beartype); stdlib stream: @beartype above lru_cache / '
+           'contextmanager must equal the documented order, parameters '
+           'included - caught',
+ 'S4-C05': 'MISSED at first contact (annotations always sat on ordinary '
+           'parameters); positional-only-only and variadic-only styles - '
+           'caught',
+ 'S4-C06': 'MISSED at first contact (no configuration passing '
+           'warning_cls_on_decorator_exception=None explicitly); conf N - '
+           'caught',
+ 'S4-C07': 'MISSED at first contact (no program was imported twice, nobody '
+           'introspected annotations); 30% of the cases first import a copy '
+           'of the same source and call typing.get_type_hints() on it - '
+           'caught',
+ 'S4-C10': 'MISSED at first contact (the recorder took the object through an '
+           'ordinary parameter; != on a spy was logged as "eq", which is '
+           'allowed); recorder through every parameter kind, __ne__ logged '
+           'apart and never allowed - caught',
  'S3-C11': 'MISSED at first contact (hostile objects were used as hints, never '
            'as PEP 593 metadata); directed block: metadata whose inspection '
            'raises (dead weakref.proxy, unbound lazy proxy, raising '
